@@ -3,6 +3,7 @@ package main
 import (
 	"fmt"
 	"go/token"
+	"go/types"
 	"strings"
 
 	"golang.org/x/tools/go/ssa"
@@ -128,6 +129,34 @@ func checkC13(c *Check) {
 	for _, f := range vis {
 		if f.Name() == "visitBlockStmt" {
 			blockHelper = f
+		}
+	}
+	if blockHelper == nil {
+		// by role: the one visitor function that both indents and unindents
+		var cands []*ssa.Function
+		for _, f := range vis {
+			in, un := false, false
+			eachInstr(f, func(_ *ssa.BasicBlock, i ssa.Instruction) {
+				if methodCallNamed(i, cmdutilsPkg, "SequenceDiagramWriter", "Indent") {
+					in = true
+				}
+				if methodCallNamed(i, cmdutilsPkg, "SequenceDiagramWriter", "Unindent") {
+					un = true
+				}
+			})
+			// … and is handed the statements of the block
+			takesStmts := false
+			for _, prm := range f.Params {
+				if sl, ok := prm.Type().Underlying().(*types.Slice); ok && typeIs(sl.Elem(), syslPkg, "Statement") {
+					takesStmts = true
+				}
+			}
+			if in && un && takesStmts && f.Parent() == nil {
+				cands = append(cands, f)
+			}
+		}
+		if len(cands) == 1 {
+			blockHelper = cands[0]
 		}
 	}
 	if blockHelper == nil {
